@@ -368,13 +368,38 @@ def gen_empty_tail(rng):
     return {"text": text, "ops": ops}
 
 
+def gen_insert_history(rng):
+    """3-8 append/insert operations in a row on a small document (any index order: front, middle, end, repeated),
+    optionally followed by an edit of one of the paragraphs: the list of paragraphs must follow the list model at
+    every step whatever was inserted before."""
+    text, npp = gen_small_doc(rng)
+    npp = [list(x) for x in npp]
+    ops = []
+    for _ in range(rng.choice([3, 3, 4, 4, 5, 6, 8])):
+        kv = [[rng.choice(NEW_NAMES + ["A"]), rng.choice(VALUES)]]
+        r = rng.random()
+        if r < 0.15:
+            npp.append([k for k, _ in kv])
+            ops.append({"o": "append", "kv": kv})
+            continue
+        i = 0 if r < 0.45 else rng.randint(1, len(npp)) if r < 0.9 else len(npp) + 1
+        npp.insert(min(i, len(npp)), [k for k, _ in kv])
+        ops.append({"o": "insert", "i": i, "kv": kv})
+    if rng.random() < 0.4:
+        ops.append(gen_op(rng, npp))
+    return {"text": text, "ops": ops}
+
+
 def generate(rng, n, tier):
     for t in range(n):
         r = rng.random()
         if r < 0.02:
             yield gen_empty_tail(rng)
             continue
-        if r < 0.12:
+        if r < 0.10:
+            yield gen_insert_history(rng)
+            continue
+        if r < 0.18:
             yield gen_glued(rng)
             continue
         if r < 0.58:
